@@ -13,7 +13,7 @@ from ..core import Failure
 ID = "C08"
 RULE = (
     "histories of 2-14 public read-only operations interleaved over a pool of 1-3 grids (sources: lon/lat topology arrays, "
-    "topology arrays with supplied face centres, Cartesian face vertices, an MPAS-like dataset with its own tables; hull / "
+    "topology arrays with supplied face centres or a supplied edge table (own numbering and node order, no face-edge table), Cartesian face vertices, an MPAS-like dataset with its own tables, a regional extract (isel) of one; hull / "
     "Voronoi / lat-lon / solid meshes incl. partial ones and faces across the antimeridian). Operations: reading any of 40 "
     "lazily computed attributes, compute_face_areas / calculate_total_face_area with any rule, order and coordinate kind, "
     "to_xarray in three formats, to_geodataframe / to_polycollection / to_linecollection with drawn arguments, get_ball_tree / "
@@ -63,8 +63,8 @@ def shard_seed_group(tier, k, n):
 
 @st.composite
 def _source(draw, big):
-    kind = draw(sampled_from(["topology", "topology", "topology-centres", "vertices-xyz", "mpas"]))
-    if kind in ("mpas", "topology-centres"):
+    kind = draw(sampled_from(["topology", "topology", "topology-centres", "vertices-xyz", "mpas", "topology-edges", "mpas-subset"]))
+    if kind in ("mpas", "topology-centres", "mpas-subset"):
         mesh = draw(meshgen.voronoi_mesh(6, 14 if big else 10, renumber=False))
     else:
         fam = draw(sampled_from(["hull", "hull", "latlon", "solid"]))
@@ -75,7 +75,7 @@ def _source(draw, big):
         else:
             mesh = draw(meshgen.solid_mesh_st())
         mesh.pop("centers", None)
-    return {"kind": kind, "mesh": mesh, "radius": draw(sampled_from([1.0, 1.0, 2.5, 6371.0]))}
+    return {"kind": kind, "mesh": mesh, "radius": draw(sampled_from([1.0, 1.0, 2.5, 6371.0])), "edge_seed": draw(st.integers(0, 999)), "drop": draw(st.integers(0, 50))}
 
 
 @st.composite
@@ -221,8 +221,19 @@ def _build_source(src):
         for i, f in enumerate(mesh["faces"]):
             arr[i, : len(f)] = [xyz[k] for k in f]
         return ux.Grid.from_face_vertices(arr, latlon=False)
-    ds, _ = writers.mpas_dataset(mesh, radius=src.get("radius", 1.0))
-    return ux.open_grid(ds)
+    if src["kind"] == "topology-edges":
+        # a source that ships its own edge table (own numbering, either node of an edge first) but no face-edge table
+        INT_DTYPE, FILL = build.consts()
+        edges = writers.numbered_edges(mesh, src.get("edge_seed", 0))
+        en = np.array([(b, a) if (k * 7 + src.get("edge_seed", 0)) % 3 == 0 else (a, b) for k, (a, b) in enumerate(edges)], dtype=INT_DTYPE)
+        return build.grid_from_mesh(mesh, edge_node_connectivity=en)
+    ds, _ = writers.mpas_dataset(mesh, radius=src.get("radius", 1.0), edge_perm_seed=src.get("edge_seed", 0))
+    g = ux.open_grid(ds)
+    if src["kind"] == "mpas-subset" and g.n_face >= 4:
+        # the source is a regional extract of an MPAS grid: it inherits the parent's edge numbering and orientation
+        d = src.get("drop", 0) % g.n_face
+        return g.isel(n_face=[k for k in range(g.n_face) if k not in (d, (d + 1) % g.n_face)])
+    return g
 
 
 def _norm(v):
